@@ -304,9 +304,9 @@ func cmdCheck(args []string) int {
 			genErrs = append(genErrs, lerr...)
 		}
 	}
-	to := 10
+	to := 25
 	if *tier == "thorough" {
-		to = 60
+		to = 120
 	}
 	if *timeout > 0 {
 		to = *timeout
